@@ -64,7 +64,7 @@ def counter_only(seed, n, m2=None):
                 elif r < 0.6:
                     sp = rng.choice(types + ['never-occurs'])
                 else:
-                    sp = '%s:%d' % (rng.choice(types + ['never-occurs']), rng.choice([0, 1, 2, 9, 10, 11, 50, 60, -3]))
+                    sp = '%s:%d' % (rng.choice(types + ['never-occurs', '']), rng.choice([0, 1, 2, 9, 10, 11, 50, 60, -3]))
                 grp.append(sp)
             groups.append(grp)
             spec_strings += grp
